@@ -7,4 +7,6 @@ require (
 	pgregory.net/rapid v1.3.0
 )
 
+require golang.org/x/sync v0.0.0-20210220032951-036812b2e83c // indirect
+
 replace github.com/b2broker/simplefix-go => /repo
